@@ -424,7 +424,13 @@ func C18() *sim.Check {
 			}
 			// the scheduler continues the run's own PRNG stream through a norace tape
 			st := simrt.NewSchedTape(t.State(), t.Remaining(), t.Replaying())
+			// library loops over maps run in sorted key order while tasks are
+			// scheduled: with Go's random order the number of comparator calls in
+			// sort.Slice (each a yield point) would differ from execution to
+			// execution and the same tape would give different interleavings
+			simrt.SetOrder(simrt.OrderSorted, nil)
 			res := simrt.Run(st, 20_000_000, funcs)
+			simrt.SetOrder(simrt.OrderNative, nil)
 			wg.Wait()
 			t.Absorb(st.Rec)
 			t.SetState(st.State())
